@@ -289,7 +289,7 @@ func (net *c19Net) exec(ev C19Ev) error {
 	return nil
 }
 
-var c19BlkRe = regexp.MustCompile(`blk:[0-9a-f]+`)
+var c19BlkRe = regexp.MustCompile(`blk:[0-9a-f]+|[0-9a-f]{64}`)
 
 func c19Record(c any, net *c19Net, verdict string) {
 	p := os.Getenv("VERIF_C19_HIST")
@@ -298,7 +298,7 @@ func c19Record(c any, net *c19Net, verdict string) {
 	}
 	raw, _ := json.Marshal(c)
 	ch := sha256.Sum256(raw)
-	// block hashes depend on the nonce the library draws from crypto/rand: they are not part of the shape
+	// block and payload hashes depend on the nonce the library draws from crypto/rand: they are not part of the shape
 	hh := sha256.Sum256([]byte(c19BlkRe.ReplaceAllString(strings.Join(net.hist, "\n"), "blk:-")))
 	f, err := os.OpenFile(p, os.O_APPEND|os.O_CREATE|os.O_WRONLY, 0o644)
 	if err != nil {
@@ -308,6 +308,7 @@ func c19Record(c any, net *c19Net, verdict string) {
 	_ = f.Close()
 	if d := os.Getenv("VERIF_C19_HISTDIR"); d != "" {
 		_ = os.WriteFile(fmt.Sprintf("%s/%x-%x.txt", d, ch[:8], hh[:8]), []byte(strings.Join(net.hist, "\n")), 0o644)
+		_ = os.WriteFile(fmt.Sprintf("%s/%x.case.json", d, ch[:8]), raw, 0o644)
 	}
 }
 
